@@ -259,6 +259,7 @@ class Interp:
         self.in_spec = 0
         self.writes = None  # write log (set of ids) when tracking heap writes
         self.path_notes = []
+        self.abstract_returns = []
         for ax in getattr(self, "axioms", []):
             self.solver.add(ax)
 
@@ -346,6 +347,8 @@ class Interp:
             g = goal
         ob = Obligation(name, self.pc, g, kind, info)
         ob.decisions = list(self.decisions[: self.dpos])
+        ob.abs_returns = list(getattr(self, "abstract_returns", []) or [])
+        ob.ghost0 = getattr(self, "ghost_initial", None)
         self.obligations.append(ob)
         return ob
 
@@ -536,6 +539,12 @@ class Interp:
             if isinstance(b, SList) and isinstance(a, int) and not isinstance(a, bool):
                 return SList(b.items * a)
         if isinstance(op, ast.Mod) and isinstance(a, str):
+            bb = b if isinstance(b, tuple) else (b,)
+            if all(isinstance(x, (int, str)) and not isinstance(x, bool) for x in bb):
+                try:
+                    return a % (b if isinstance(b, tuple) else (b,))
+                except (TypeError, ValueError):
+                    pass
             return self.fresh_scalar("str", "fmt")  # formatted text: opaque
         if isinstance(op, ast.Add) and ka == "str" and kb == "str":
             return self.fresh_scalar("str", "concat")  # text built from opaque pieces: opaque
@@ -1181,6 +1190,9 @@ class Interp:
             raise PyRaise("KeyError", node)
         if isinstance(c, SymMap):
             k = self.force(k, node)
+            if k is None and (self.in_spec or self.nofork):
+                # total reading inside specifications: unspecified value
+                return self.havoc_like_spec(c.get(z3.IntVal(0)))
             kt = self.z(k)
             if not (self.in_spec or self.nofork):
                 if not self.branch(c.has(kt), node):
@@ -1312,8 +1324,15 @@ class Interp:
                 c.d[self.dict_key(k)] = v
                 self.writeback(c)
                 return
-            if isinstance(k, Sym) and not c.d:
-                raise Unsupported("symbolic key stored into an untyped concrete dict (declare the field as Map/ADict)", node)
+            if isinstance(k, Sym) and getattr(c, "default_factory", None) is None:
+                # a literal dict receives a symbolic key: continue as an association list (bounded representation)
+                keys = list(c.d.keys())
+                vals = list(c.d.values())
+                c.__class__ = SADict
+                c.__dict__.pop("d", None)
+                c.keys = keys
+                c.vals = vals
+                return self.setitem(c, k, v, node)
             raise Unsupported("symbolic key into concrete dict", node)
         if isinstance(c, SADict):
             self.note_write(c)
@@ -1505,6 +1524,8 @@ class Interp:
         if isinstance(t, S._Scalar):
             if t.kind == "none":
                 return None
+            if bounded is not None and name in bounded and isinstance(bounded[name], (int, bool, str)):
+                return bounded[name]  # scalar fixed by the shape of this unit
             return self.fresh_scalar(t.kind, name)
         if isinstance(t, S.Arr):
             from . import npmodel
@@ -1564,6 +1585,16 @@ class Interp:
             has_arr = z3.Array(self.fresh_name(name + ".has"), z3.IntSort(), z3.BoolSort())
             card = z3.Int(self.fresh_name(name + ".card"))
             self.assume(card >= 0)
+            # link cardinality and membership as far as first-order facts allow: witnesses for card >= 1, 2, 3
+            # and emptiness for card == 0
+            w = [z3.Int(self.fresh_name(name + ".member%d" % i)) for i in range(3)]
+            self.assume(z3.Implies(card >= 1, z3.Select(has_arr, w[0])))
+            self.assume(z3.Implies(card >= 2, z3.And(z3.Select(has_arr, w[1]), w[1] != w[0])))
+            self.assume(z3.Implies(card >= 3, z3.And(z3.Select(has_arr, w[2]), w[2] != w[0], w[2] != w[1])))
+            kq = z3.Int(self.fresh_name("k"))
+            self.assume(z3.Implies(card == 0, z3.ForAll([kq], z3.Not(z3.Select(has_arr, kq)))))
+            self.assume(z3.Implies(card == 1, z3.ForAll([kq], z3.Implies(z3.Select(has_arr, kq), kq == w[0]))))
+            self.assume(z3.Implies(card == 2, z3.ForAll([kq], z3.Implies(z3.Select(has_arr, kq), z3.Or(kq == w[0], kq == w[1])))))
             return SymSet(t.k, lambda k, a=has_arr: z3.Select(a, k), card)
         if isinstance(t, S.Abstract):
             return AbstractObj(t.name, name)
@@ -1628,6 +1659,8 @@ class Interp:
         card = z3.Int(self.fresh_name(name + ".card"))
         self.assume(card >= 0)
         g = self.leaf_getter(t.v, name + "{}")
+        if getattr(t, "total", False):
+            return SymMap(t.k, t.v, lambda k: z3.BoolVal(True), g, card)
         m = SymMap(t.k, t.v, lambda k, a=has_arr: z3.Select(a, k), g, card)
         # card == 0 <=> empty
         k = z3.Int(self.fresh_name("k"))
